@@ -15,7 +15,7 @@ PROP = dict(
     rule=("Two samples of 1-70 finite values (few-valued pools with ties, integers incl. zero and negatives, near-constant, continuous; "
           "magnitudes 1e-9..1e12), confidence from common levels, dyadic thresholds 1-2^(1-n) +- delta, uniform (0,1) and levels 1-u*1e-12 / 1-10^-e (e<=13.5) where 30-50 and more samples are needed (the warning is probed against Summary itself there), alpha from "
           "{0,.001,.01,.05,.1,.5,1,1/3,1/35}, assumption nothing/exact/normal, a reordering and a power-of-two rescaling. Non-trivial = "
-          "both samples have >=2 values and differ as multisets. Distinct = distinct case JSON. A second confidence level a few 1e-8 away from the first (around the binomial coverage steps of the sample size) is evaluated right afterwards in a third of the cases. In a third of the cases the rendered range is also checked on a summary given directly (lo <= centre <= hi from zero, +-1, subnormals, +-1e308, +-MaxFloat64, +-Inf and random bit patterns). cli unit: the C14 reference pipeline on benchstat invocations that always set -alpha."),
+          "both samples have >=2 values and differ as multisets. Distinct = distinct case JSON. A second confidence level a few 1e-8 away from the first (around the binomial coverage steps of the sample size) is evaluated right afterwards in a third of the cases. One case in twelve holds values near the top of the float range (order-statistic models only). A warning that more samples are needed to detect a difference must be true for the two sample sizes (2/C(n1+n2,n1) > alpha). In a third of the cases the rendered range is also checked on a summary given directly (lo <= centre <= hi from zero, +-1, subnormals, +-1e308, +-MaxFloat64, +-Inf and random bit patterns). cli unit: the C14 reference pipeline on benchstat invocations that always set -alpha."),
     assumptions=["go-moremath is the pinned dependency version of /repo/go.mod"],
     units=[
         R("rapid", "A", "./c13", "TestC13Rapid", (3000, 8), (80000, 16)),
